@@ -4,6 +4,8 @@ import (
 	"bufio"
 	"fmt"
 	"io"
+	"os"
+	"syscall"
 	"unicode/utf8"
 
 	"github.com/yuin/goldmark/util"
@@ -17,28 +19,67 @@ type FaultPlan struct {
 	K     int    `json:"k,omitempty"`     // total byte offset at which a short+err writer starts to fail
 	J     int    `json:"j,omitempty"`     // sink call index (0-based) for call-indexed kinds
 	Shape string `json:"shape,omitempty"` // transient: zero | short | full
+	// Err: what kind of error value the writer returns. "" plain sentinel; "temporary" and
+	// "timeout" implement the net.Error methods; "shortwrite", "eof", "closedpipe", "epipe",
+	// "deadline" wrap the corresponding standard-library sentinel (errors.Is finds it). In
+	// every case the value is unique to this sink, so errors.Is(returned, E) attributes it.
+	Err string `json:"err,omitempty"`
 }
+
+var errKinds = []string{"", "temporary", "timeout", "shortwrite", "eof", "closedpipe", "epipe", "deadline"}
 
 func (p *FaultPlan) String() string {
 	if p == nil {
 		return "none"
 	}
+	e := ""
+	if p.Err != "" {
+		e = ",err=" + p.Err
+	}
 	switch p.Kind {
 	case "short+err":
-		return fmt.Sprintf("short+err@k=%d", p.K)
+		return fmt.Sprintf("short+err@k=%d%s", p.K, e)
 	case "always":
-		return "always"
+		return "always" + e
 	case "transient":
-		return fmt.Sprintf("transient(%s)@j=%d", p.Shape, p.J)
+		return fmt.Sprintf("transient(%s)@j=%d%s", p.Shape, p.J, e)
 	}
-	return fmt.Sprintf("%s@j=%d", p.Kind, p.J)
+	return fmt.Sprintf("%s@j=%d%s", p.Kind, p.J, e)
 }
 
 // simErr is the error value a sink returns. A fresh value per sink, so identity attributes
 // a returned error to this very fault (errors.Is uses ==).
-type simErr struct{ id uint64 }
+type simErr struct {
+	id   uint64
+	kind string
+}
 
-func (e *simErr) Error() string { return fmt.Sprintf("simulated writer failure #%d", e.id) }
+func (e *simErr) Error() string {
+	if e.kind != "" {
+		return fmt.Sprintf("simulated writer failure #%d (%s)", e.id, e.kind)
+	}
+	return fmt.Sprintf("simulated writer failure #%d", e.id)
+}
+
+// the net.Error methods: code that type-asserts for Temporary()/Timeout() finds them
+func (e *simErr) Temporary() bool { return e.kind == "temporary" }
+func (e *simErr) Timeout() bool   { return e.kind == "timeout" || e.kind == "deadline" }
+
+func (e *simErr) Unwrap() error {
+	switch e.kind {
+	case "shortwrite":
+		return io.ErrShortWrite
+	case "eof":
+		return io.EOF
+	case "closedpipe":
+		return io.ErrClosedPipe
+	case "epipe":
+		return syscall.EPIPE
+	case "deadline":
+		return os.ErrDeadlineExceeded
+	}
+	return nil
+}
 
 // Sink is the simulated destination. It records every byte it accepted.
 type Sink struct {
@@ -61,7 +102,11 @@ type Sink struct {
 }
 
 func NewSink(plan *FaultPlan, id uint64) *Sink {
-	return &Sink{plan: plan, E: &simErr{id}, firstFail: -1}
+	k := ""
+	if plan != nil {
+		k = plan.Err
+	}
+	return &Sink{plan: plan, E: &simErr{id, k}, firstFail: -1}
 }
 
 func (s *Sink) fail(n int, kind string) (int, error) {
